@@ -12,11 +12,13 @@ import (
 )
 
 type half struct {
-	mu     sync.Mutex
-	cond   *sync.Cond
-	buf    []byte
-	closed bool
-	log    []byte // everything ever written into this half
+	mu      sync.Mutex
+	cond    *sync.Cond
+	buf     []byte
+	closed  bool
+	log     []byte // everything ever written into this half
+	inj     []byte // tail of what was injected into this half (WriteHook only)
+	waiters int    // readers blocked in Read on this half
 }
 
 type Conn struct {
@@ -48,7 +50,9 @@ func (c *Conn) Read(p []byte) (int, error) {
 		if h.closed {
 			return 0, io.EOF
 		}
+		h.waiters++
 		h.cond.Wait()
+		h.waiters--
 	}
 	n := copy(p, h.buf)
 	h.buf = h.buf[n:]
@@ -62,10 +66,28 @@ func (c *Conn) Write(p []byte) (int, error) {
 	if h.closed {
 		return 0, net.ErrClosed
 	}
+	if WriteHook != nil {
+		WriteHook(logTail(h.log), p)
+	}
 	h.buf = append(h.buf, p...)
 	h.log = append(h.log, p...)
 	h.cond.Broadcast()
 	return len(p), nil
+}
+
+// WriteHook, when set (before any Conn is used), sees every chunk that enters a pipe direction
+// (Write and Inject): tail is up to TailLen bytes that entered the same direction just before p.
+// The harness uses it to record names that crossed ITS OWN wire (FS directory names); it must not
+// retain or modify the slices.
+var WriteHook func(tail, p []byte)
+
+const TailLen = 512
+
+func logTail(l []byte) []byte {
+	if len(l) > TailLen {
+		return l[len(l)-TailLen:]
+	}
+	return l
 }
 
 // Close closes both directions (like a TCP close seen by both sides).
@@ -93,6 +115,10 @@ func (c *Conn) Written() []byte {
 func (c *Conn) Inject(p []byte) {
 	h := c.rd
 	h.mu.Lock()
+	if WriteHook != nil {
+		WriteHook(logTail(h.inj), p)
+	}
+	h.inj = append(logTail(h.inj), p...)
 	h.buf = append(h.buf, p...)
 	h.cond.Broadcast()
 	h.mu.Unlock()
@@ -122,4 +148,22 @@ func (c *Conn) CloseWrite() {
 	h.closed = true
 	h.cond.Broadcast()
 	h.mu.Unlock()
+}
+
+// ReadWaiting reports whether a Read on this end is blocked right now: a reader is parked, nothing is
+// buffered for it and the direction is open. Together with WrittenLen (sampled before and after) a
+// harness can tell a set of connections on which every party waits for another -- a stall that no
+// amount of time resolves -- from one that is merely slow, without any timer.
+func (c *Conn) ReadWaiting() bool {
+	h := c.rd
+	h.mu.Lock()
+	defer h.mu.Unlock()
+	return h.waiters > 0 && len(h.buf) == 0 && !h.closed
+}
+
+// WrittenLen: how many bytes this end has written so far.
+func (c *Conn) WrittenLen() int {
+	c.wr.mu.Lock()
+	defer c.wr.mu.Unlock()
+	return len(c.wr.log)
 }
